@@ -12,7 +12,49 @@ NAMES = ["Adarand", "Smith", "Jones", "Peña", "Roe", "Wade", "Brown", "Board",
          "O'Brien", "McDonald", "Garcia", "Nguyen", "Twombly", "Iqbal"]
 NOMINATIVE = ["Thompson", "Cooke", "Holmes", "Olcott", "Chase", "Gilmer", "Bee",
               "Deady", "Taney"]
-COURTS = ["", "", "2d Cir.", "9th Cir.", "D. Mass.", "S.D.N.Y.", "Cal.", "Tex. App."]
+COURTS = ["", "", "2d Cir.", "9th Cir.", "D. Mass.", "S.D.N.Y.", "Cal.", "Tex. App.",
+          # abbreviations that are a prefix of several courts-db citation strings
+          "Cal", "Tex", "Mass", "Wash", "Ark", "Ala", "Mich", "N.Y", "Pa", "Md",
+          "Bankr. D.", "Ct. App.", "Sup. Ct."]
+
+
+def ambiguous_court_prefixes(limit=2000):
+    """Word-truncated prefixes of courts-db citation strings that are a prefix of
+    at least two courts (plain data; nothing of eyecite is called)."""
+    import re
+
+    try:
+        from courts_db import courts
+    except Exception:
+        return []
+    norm = lambda x: re.sub(r"[^\w]", "", x).lower()
+    strings = sorted({c["citation_string"] for c in courts if c.get("citation_string")})
+    normed = sorted({norm(x) for x in strings})
+    cands = set()
+    for cs in strings:
+        words = cs.split(" ")
+        for k in range(1, len(words)):
+            cands.add(" ".join(words[:k]))
+    out = []
+    for pfx in sorted(cands):
+        n = norm(pfx)
+        if len(n) < 2 or ")" in pfx or "(" in pfx:
+            continue
+        hits = 0
+        for x in normed:
+            if x.startswith(n) and x != n:
+                hits += 1
+                if hits >= 2:
+                    break
+        if hits >= 2:
+            out.append(pfx)
+    step = max(1, len(out) // limit)
+    return out[::step][:limit]
+
+
+_COURT_PREFIXES = None
+LAW_PARENS = [" (West 1999)", " (West Supp. 2019)", " (Lexis Jun. 2018)", " (1999)",
+              " (May 2, 1999)", " (McKinney 2020) (repealed)", " (Supp. 2026)", " (West 2028)"]
 PARENS = ["overruling prior law", "en banc", "per curiam", "quoting Foo",
           "holding (in dicta) otherwise", "same"]
 ROMANS = ["ii", "iv", "ix", "xii", "xl", "cix", "lv"]
@@ -51,6 +93,10 @@ class Gen:
         self.atlas = atlas
         self.cited = []     # party names of full citations written so far
         self.last_parties = None
+        global _COURT_PREFIXES
+        if _COURT_PREFIXES is None:
+            _COURT_PREFIXES = ambiguous_court_prefixes()
+        self.courts = COURTS + _COURT_PREFIXES
         self.full = [g for g in atlas if g["form"] == "full" and g["x"]]
         self.short = [g for g in atlas if g["form"] == "short" and g["x"]]
         self.examples = [g for g in atlas if g["form"] == "example" and g["x"]]
@@ -120,6 +166,28 @@ class Gen:
         form = g["form"]
         if form == "special":
             return core
+        src = g.get("src") or []
+        if "laws" in src and "reporters" not in src:
+            # statutes: subsections, publisher/date parenthetical, comment
+            s = core
+            if r.random() < 0.4:
+                s += self.pick(["(a)", "(a)(2)", "(b)(1)(iii)", " et seq.", "(a) and (d)"])
+            if r.random() < 0.6:
+                s += self.pick(LAW_PARENS)
+            if r.random() < 0.2:
+                s += f" ({self.pick(PARENS)})"
+            return s
+        if "journals" in src and "reporters" not in src:
+            s = core
+            if r.random() < 0.5:
+                s += f", {self.pin()}"
+            if r.random() < 0.6:
+                s += f" ({self.year()})"
+            if r.random() < 0.2:
+                s += f" ({self.pick(PARENS)})"
+            if r.random() < 0.3:
+                s = f"{self.name()}, {self.pick(['Note', 'Comment', 'The Law of Things'])}, {s}"
+            return s
         if form == "short":
             s = core
             if r.random() < 0.6:
@@ -145,7 +213,7 @@ class Gen:
         if r.random() < 0.4:
             s += f", {self.pin()}"
         if r.random() < 0.6:
-            court = self.pick(COURTS)
+            court = self.pick(self.courts if r.random() < 0.4 else COURTS)
             s += f" ({court + ' ' if court else ''}{self.year()})"
         if r.random() < 0.2:
             s += f" ({self.pick(PARENS)})"
